@@ -1,7 +1,7 @@
 (* C04 - no inbound bytes can panic the decoders.  `Panic` is the model's outcome for every Rust
    expression that can panic (unwrap, unreachable!, Bytes::advance past the end, slice index,
    arithmetic overflow with overflow checks on). *)
-From Poster Require Import Model.Sim Proofs.VarintP Proofs.RxP Proofs.FramingP Proofs.FramingMainP Proofs.SimInvP.
+From Poster Require Import Model.Sim Proofs.VarintP Proofs.RxP Proofs.FramingP Proofs.FramingMainP Proofs.SimInvP Proofs.OwnP Proofs.ByteRangeP Proofs.TypedP.
 
 (* every non-empty byte string (the framing layer never hands over an empty one): the packet
    decoder returns a packet or an error *)
@@ -65,3 +65,17 @@ Example C04_nonvacuous :
                             None None None None None None [] None None None None);
                 EDeliver [32; 3; 0; 0; 0]; ERun; EDeliver [64; 1; 5]; EDeliver [240; 0]; EEof].
 Proof. repeat constructor; vm_compute; discriminate. Qed.
+
+(* the operation futures: in every state a well-formed script reaches (Proofs/TypedP.v: fresh operation
+   indices, bytes < 256; any packets - stray, wrong type for a pending identifier, malformed - in any order),
+   polling a started operation never reaches an unreachable!() arm of handle.rs *)
+Theorem C04_futures_total : forall (evs : list event) (i : N) (o : op), wf_run sys_init evs ->
+  let s := final_state sys_init evs in
+  alookup i (ops s) = Some o -> o_phase o <> NotStarted -> ~ In (ODone i RPanic) (snd (poll_op s i)).
+Proof. exact no_unreachable. Qed.
+Print Assumptions C04_futures_total.
+(* packet identifiers the client decodes from bytes are u16, so a key (type << 24 | id << 8) never aliases
+   another acknowledgement type *)
+Theorem C04_decoded_pid_range : forall (bs : bytes) (p : rxpkt), B256 bs -> dec_packet bs = Ok p -> r_pid p < 65536.
+Proof. exact dec_packet_pid. Qed.
+Print Assumptions C04_decoded_pid_range.
